@@ -14,12 +14,20 @@ _U = TypeVar('_U', bound=base.RawTreeModel)
 _V = TypeVar('_V')
 
 
+def _check_not_in_store(value: base.RawModel, token_store: base.TokenStore) -> None:
+    # detach() takes a node out only together with its whole store: for a node of the destination store that
+    # would remove the insertion point as well (and leave the document empty), so refuse before touching it.
+    if value.token_store is token_store:
+        raise ValueError('Cannot reuse node. Consider making a copy.')
+
+
 def replace_node(node: _M, repl: _M) -> None:
     token_store = node.token_store  # backup because the RawTokenModel.token_store may disappear
     if not token_store:
         raise ValueError('Cannot replace a free token.')
     if node is repl:
         return
+    _check_not_in_store(repl, token_store)
     token_store.splice(repl.detach(), node.first_token, node.last_token)
     if isinstance(repl, base.RawTreeModel):
         repl.reattach(token_store)
@@ -139,6 +147,7 @@ class RepeatedNodeWrapper(MutableSequence[_M]):
         if length is None:
             length = len(self._repeated.items)
         for i, value in enumerate(values):
+            _check_not_in_store(value, self._repeated.token_store)
             if index or (i and not length):
                 tokens.extend(copy.deepcopy(self._separators))
                 tokens.extend(value.detach())
@@ -188,6 +197,7 @@ class RepeatedNodeWrapper(MutableSequence[_M]):
             assert not isinstance(value, Iterable)
             index = indexes.range_from_index(index, len(self._repeated.items)).start
             item = self._repeated.items[index]
+            _check_not_in_store(value, self._repeated.token_store)
             self._repeated.token_store.splice(value.detach(), item.first_token, item.last_token)
             value.reattach(self._repeated.token_store)
             self._repeated.items[index] = value
@@ -197,6 +207,7 @@ class RepeatedNodeWrapper(MutableSequence[_M]):
         values = list(value)
         for v in values:
             # Refuse before anything is deleted: detach() would only fail halfway through.
+            _check_not_in_store(v, self._repeated.token_store)
             if v.token_store and (
                     v.first_token is not v.token_store.get_first() or
                     v.last_token is not v.token_store.get_last()):
